@@ -111,7 +111,9 @@ def check_case(P, case):
 FILL = ["", " ", ".", ", ", "\n", " see ", "CVSS", "CVSS:", "CVSS:3", "CVSS:3.", "CVSS:3.1", "CVSS:3.1/", "CVSS:3.0/", "3.1/", "/", ":",
         "x", "AV:N", "(", ")", "9.8 ", "é", "1", "score:", "Vector: ", "\t", "CVSS:3.0/AV:N/AC:L", "AV:N/AC:L/Au:N/C:C/I:C/A", "—",
         "\x00", "\r\n", "[", "]", "\"", "'", "<b>", "&amp;", " - ", ";", "CVSS:3.2/", "CVSS:2.0/", "CVSS:4.0/", "0", "_", "-", "=",
-        "\u2028", "\U0001f600", "CVSSv3: ", "cvss:3.1/", "Base Score 7.5 ", "//", "::", "A", "Z:", "/z"]
+        "\u2028", "\U0001f600", "CVSSv3: ", "cvss:3.1/", "Base Score 7.5 ", "//", "::", "A", "Z:", "/z",
+        # letters OUTSIDE [A-Za-z] that case-fold or look like ASCII letters: valid delimiters
+        "\u0130", "\u0131", "\u017f", "\u212a", "\u00df", "\u03a9", "\u0430", "\uff21", "\u00c5", "\u1e9e", "\ufb01"]
 MIN2 = "AV:N/AC:L/Au:N/C:P/I:P/A:P"  # 26 characters
 
 
